@@ -244,7 +244,7 @@ PROPS['C02'] = {
     'note': 'ground truth (what was signed with which key, attribute bytes, digest, prefixes) comes from the harness encoder. The DER-length shape of encode_verify and the EE validation composition are re-read from the source on every run. Roa::process/Aspa::process evaluate at the wall clock; those cases use 2000-2100 validity windows.',
     'shards': {'quick': 4, 'thorough': 16},
     'budget': {'quick': 900, 'thorough': 7200},
-    'rule': '1.2k (thorough 8k) objects: generic signed objects with content-type OIDs of 9-250 octets (signed attributes 100-400 octets incl. 127/128/255/256 boundaries), ROAs (prefixes inside/outside/partially outside the EE resources, both families, max-length, EE exact/inherit/trimmed/too small), ASPAs (customer inside/outside, inherit, IP resources present), manifests; one tampering per case out of 22: sid bit, foreign signer, signature bit, signature over [0]-tagged / non-DER-length / content bytes, wrong digest, short digest, content-type mismatch, missing/duplicate/unknown attribute, non-DER attribute order, CMS/SignerInfo version, GeneralizedTime signing time, EE signed by stranger, EE AKI, evaluation time at the window ends, CRL callback refusal, EE with cA, EE without signedObject SIA.',
+    'rule': 'every strict model verdict is computed from the octets of the object (CmsDer.decodeSigObj + CertDer.takeCert); cmsd: the ROA/ASPA/manifest/generic seed objects x about 110 hand-made variations of SignedData, SignerInfo, signed attributes, ContentInfo and the embedded certificate + 30 (thorough 300) mutants each, compared on accept/reject (typed and untyped) and on content type, content, signing time and every certificate field; 1.2k (thorough 8k) objects: generic signed objects with content-type OIDs of 9-250 octets (signed attributes 100-400 octets incl. 127/128/255/256 boundaries), ROAs (prefixes inside/outside/partially outside the EE resources, both families, max-length, EE exact/inherit/trimmed/too small), ASPAs (customer inside/outside, inherit, IP resources present), manifests; one tampering per case out of 22: sid bit, foreign signer, signature bit, signature over [0]-tagged / non-DER-length / content bytes, wrong digest, short digest, content-type mismatch, missing/duplicate/unknown attribute, non-DER attribute order, CMS/SignerInfo version, GeneralizedTime signing time, EE signed by stranger, EE AKI, evaluation time at the window ends, CRL callback refusal, EE with cA, EE without signedObject SIA.',
     'trusted_base': ['aws-lc RSA verification and SHA-256 (the latter compared with the Lean SHA-256 on every case)', 'bcder and the CMS/X.509 decoders for everything except what the facts record (validated differentially)'],
     'assumptions': ['a signature verifies under a key iff it was produced with the matching private key over exactly those bytes'],
 }
